@@ -287,7 +287,7 @@ def main():
     else:
         mal = malformed_files(rng) if not ck.replay_arg else (replay_mal or [])
         if ck.thorough():
-            for _ in range(15):
+            for _ in range(6):
                 mal += malformed_files(rng)
         for k, (tag, content) in enumerate(mal):
             dist['malformed:' + tag] = dist.get('malformed:' + tag, 0) + 1
